@@ -76,7 +76,8 @@ func c04Gen(c *vfCtx, emit func(c04Case)) {
 			emit(c04Case{API: "ssnap", Mode: mode, Entries: []c04Entry{{Test: "TestA", Old: b, New: "short"}, {Test: "TestA", Old: "short", New: b}}})
 		}
 		// standalone files: whole-file replacement, long -> short, CR included
-		svals := []string{"a", "", "b", "a\nb\nc", "---", "a\r\n", "\xff", "$1%d", "[TestA - 1]", strings.Repeat("long", 50)}
+		// incl. values that differ only in a final newline (a\n / a, \n / "", a\n\n / a\n) and in final blanks
+		svals := []string{"a", "", "b", "a\nb\nc", "---", "a\r\n", "\xff", "$1%d", "[TestA - 1]", strings.Repeat("long", 50), "a\n", "\n", "a\n\n", "a ", "a\r"}
 		for _, o := range svals {
 			for _, n := range svals {
 				emit(c04Case{API: "ssnap", Mode: mode, Entries: []c04Entry{{Test: "TestA", Old: o, New: n}}})
